@@ -19,9 +19,9 @@ EXPLANATION = (
     "model element rebinds self.tags to a fresh list afterwards (tags belong to exactly the statement they precede). P7: action_steps / action_multiline_text "
     "evaluated on concrete lines (constant folding): a doc-string opened by one delimiter kind and containing lines of "
     "the other kind ends only at its own delimiter, and its text is the lines in between minus the opening indent. P8: escape_cell (renderer) composed with action_table's row split, both "
-    "constant-folded on rows whose cells contain pipes: the re-parsed cells equal the original ones.")
-NOT_DECIDED = ("text fidelity of names, descriptions, tags, cells and doc-string dedent (string contents, e.g. a '#' "
-               "inside a tag name); parse_file decoding; the renderers in model_describe beyond pipe escaping (P8); full trace equivalence with a "
+    "constant-folded on rows whose cells contain pipes: the re-parsed cells equal the original ones. P9: Parser.parse_tags constant-folded on 11 tag "
+    "lines (tags with '#', '.', '-', '=', ':' inside, trailing comments, malformed words).")
+NOT_DECIDED = ("text fidelity of names, descriptions, tags, cells and doc-string dedent (string contents beyond the sampled universes of P7-P9); parse_file decoding; the renderers in model_describe beyond pipe escaping (P8); full trace equivalence with a "
                "reference grammar machine (P4 of the design) was not built - the machine exploration decides P2 and, "
                "in C05, the error discipline")
 
@@ -37,6 +37,7 @@ def t_struct(chk, ix):
     rules_parser.check_tags_consumed(chk, ix, "P6")
     rules_parser.check_docstring_protocol(chk, ix)
     rules_parser.check_cell_roundtrip(chk, ix)
+    rules_parser.check_tag_line(chk, ix)
 
 
 def run(chk, ix, tier):
@@ -49,3 +50,4 @@ def run(chk, ix, tier):
     chk.require_instances("P6", 5)
     chk.require_instances("P7", 2)
     chk.require_instances("P8", 6)
+    chk.require_instances("P9", 11)
